@@ -332,6 +332,7 @@ impl SpeedLimitTrainSim {
 
     /// Walks until getting to the end of the path
     fn walk_internal(&mut self) -> anyhow::Result<()> {
+        let mut time_at_rest = si::Time::ZERO;
         while self.state.offset < self.path_tpc.offset_end() - 1000.0 * uc::FT
             || (self.state.offset < self.path_tpc.offset_end()
                 && self.state.speed != si::Velocity::ZERO)
@@ -346,6 +347,27 @@ impl SpeedLimitTrainSim {
                 )
             );
             self.step()?;
+            // A train at rest whose controller targets zero speed stays where it is once the
+            // friction brake has had time to ramp up: the target depends on position and speed
+            // only, and nothing extends the path inside this loop
+            if self.state.speed == si::Velocity::ZERO
+                && self.state.speed_target == si::Velocity::ZERO
+                && self.state.offset < self.path_tpc.offset_end() - 1000.0 * uc::FT
+            {
+                time_at_rest += self.state.dt;
+                if time_at_rest > self.fric_brake.ramp_up_time + 60.0 * uc::S {
+                    bail!(
+                        "{}\nTrain came to rest {:.1} m before the end of its path (offset {:.1} m), outside the {:.1} m stopping window, and the speed target there is zero: it has not moved for {:.0} s and cannot move on.",
+                        format_dbg!(),
+                        (self.path_tpc.offset_end() - self.state.offset).get::<si::meter>(),
+                        self.state.offset.get::<si::meter>(),
+                        (1000.0 * uc::FT).get::<si::meter>(),
+                        time_at_rest.get::<si::second>(),
+                    );
+                }
+            } else {
+                time_at_rest = si::Time::ZERO;
+            }
         }
         Ok(())
     }
